@@ -25,11 +25,21 @@ Proof. exact Hash_length. Qed.
 Theorem C20_blake_length : forall m : list Z, length (blake512 m) = 64%nat.
 Proof. exact blake512_length. Qed.
 
+(* the two specification functions reproduce digests PRODUCED BY THE GO LIBRARIES
+   (and published vectors) at the block boundaries, computed inside Coq:
+   Spec/HashVectors.v holds 63 such Examples; two are restated here *)
+Theorem C20_vectors :
+  keccak256 [] = [197; 210; 70; 1; 134; 247; 35; 60; 146; 126; 125; 178; 220; 199; 3; 192;
+                  229; 0; 182; 83; 202; 130; 39; 59; 123; 250; 216; 4; 93; 133; 164; 112]%Z /\
+  firstn 8 (blake512 [0%Z]) = [151; 150; 21; 135; 246; 217; 112; 250]%Z.
+Proof. split; vm_compute; reflexivity. Qed.
+
 (* determinism and "inputs unmodified" are properties of Gallina functions;
    for the implementation they are decided by C16 (effect IR) and by the
    purity harness.  The third-party digests (x/crypto/sha3, dchest/blake512)
    are tied to [keccak256]/[blake512] by Spec/HashVectors.v (54 digests
    produced by the Go code, re-computed inside Coq) and by the correspondence. *)
+Print Assumptions C20_vectors.
 Print Assumptions C20_keccak_wrapper.
 Print Assumptions C20_split_independent.
 Print Assumptions C20_keccak_length.
